@@ -210,6 +210,34 @@ def namedtuples_with_symbolic_fields(b):
   })
 
 
+class Registry(object):
+  known = set()            # class-level, shared by all instances (deliberately)
+  table = {}
+
+  def learn(self, x):
+    self.known.add(x)
+    self.table["n"] = len(self.known)
+
+
+def shared_class_state(x):
+  a, c = Registry(), Registry()
+  a.learn(x)
+  a.learn(7)
+  return (x in c.known, 7 in c.known, 8 in c.known, len(c.known), c.table["n"])
+
+
+@unit(P, target="contracts.self_engine:shared_class_state")
+def mutation_of_class_level_containers_is_seen_by_every_instance(b):
+  """2026-09-25: mutating a concrete class-level container was out of reach (UNDECIDED); it now lives in a per-path overlay, so
+  state shared through a class attribute is modelled as shared"""
+  x = b.int("x", 5, 9)
+  return Case(shared_class_state, [x], raises={}, ensures={
+    "ok_the_other_instance_sees_it": lambda res: res[0] is True and res[1] is True and res[2] is (x == 8),
+    "ok_size": lambda res: res[3] == (1 if x == 7 else 2) and res[4] == res[3],
+    "bad_instances_have_their_own": lambda res: res[1] is False,
+  })
+
+
 class Cb(object):
   def m(self):
     return 1
